@@ -46,11 +46,11 @@ PROFILES = {
     "quick": dict(
         design=[("cc_lock2.cfg", True), ("cc_lock3.cfg", True),
                 ("cc_nolock_sync.cfg", False), ("cc_nolock_unavail.cfg", False), ("cc_nolock_cmc.cfg", False)],
-        bfs=[("bfs_c1.cfg", 1, 600), ("bfs_c2w.cfg", 2, 500)], gen=[("sim_c2.cfg", 2, 100), ("sim_c3.cfg", 3, 100)], limit=2400),
+        bfs=[("bfs_c1.cfg", 1, 600), ("bfs_c1r.cfg", 1, 300), ("bfs_c2w.cfg", 2, 500)], gen=[("sim_c2.cfg", 2, 100), ("sim_c3.cfg", 3, 100)], limit=2700),
     "thorough": dict(
         design=[("cc_lock2.cfg", True), ("cc_lock3.cfg", True), ("cc_lock3_t.cfg", True),
                 ("cc_nolock_sync.cfg", False), ("cc_nolock_unavail.cfg", False), ("cc_nolock_cmc.cfg", False)],
-        bfs=[("bfs_c1.cfg", 1, None), ("bfs_c2w.cfg", 2, 10000)], gen=[("sim_c2.cfg", 2, 2500), ("sim_c3.cfg", 3, 2500)], limit=45000),
+        bfs=[("bfs_c1.cfg", 1, 12000), ("bfs_c1r.cfg", 1, None), ("bfs_c2w.cfg", 2, 8000)], gen=[("sim_c2.cfg", 2, 2500), ("sim_c3.cfg", 3, 2500)], limit=45000),
 }
 OBS_RE = re.compile(r'<<(\d+), "(\w+)", "([^"]*)", (-?\d+)>>')
 
